@@ -210,7 +210,8 @@ func (v objectValidator) keyMatchesType(name string, value jbytes.Bytes, visitin
 	}
 
 	if node.ConstraintMap().Len() == 0 {
-		return bytes.Equal(node.Value(), value)
+		// Compare the strings, not their spelling: "\u0061bc" is the key "abc".
+		return bytes.Equal(node.Value().Unquote(), value.Unquote())
 	}
 	return isValidLiteralValue(node, value)
 }
